@@ -3,7 +3,7 @@ Print / parse round trips of the concrete atoms of Model/JsonAtoms.lean:
 `parseIpv4 (showIpv4 x) = some x`, `parseIpv6 (showIpv6 x) = some x`, `parseIp (showIp x) = some x`,
 `d.Valid → parseDt (showDt d) = some d`.
 -/
-import RioModel.Model.JsonAtoms
+import RioModel.Model.JsonAction
 import RioModel.Proofs.JsonText
 set_option linter.unusedSimpArgs false
 set_option linter.unusedVariables false
@@ -636,6 +636,7 @@ theorem decodeFields_ipv6Fields (segs : List UInt16) (h8 : segs.length = 8) :
              else none
            | _, _ => none) := by
         simp [decodeFields, List.takeWhile, List.dropWhile]
+        rfl
       rw [hdec, hpg, hq]
       simp only [List.length_nil, Nat.zero_add, List.nil_append] at hle hfinal ⊢
       simp [hle, hfinal]
@@ -762,11 +763,78 @@ theorem parseIp_showIp (x : Ip) : parseIp (showIp x) = some x := by
       rw [Bool.eq_false_iff]; intro hc
       rw [List.contains_iff_mem] at hc
       exact showIpv4_no_colon v hc
-    simp [parseIp, showIp, this, parseIpv4_showIpv4]
+    simp [parseIp, showIp, showIpv4_no_colon v, parseIpv4_showIpv4]
   | v6 v =>
     have : (showIpv6 v).contains ':' = true := by
       rw [List.contains_iff_mem]; exact showIpv6_has_colon v
-    simp [parseIp, showIp, this, parseIpv6_showIpv6]
+    simp [parseIp, showIp, showIpv6_has_colon v, parseIpv6_showIpv6]
 
+
+
+/-! ### requests -/
+
+theorem readIp_show (P : Codec) (x : Ip) : readIp P (String.ofList (showIp x)) = some x := by
+  simp [readIp, String.toList_ofList, parseIp_showIp]
+
+theorem readDt_show (P : Codec) (d : DateTime) (h : d.Valid) :
+    readDt P (String.ofList (showDt d)) = some d := by
+  simp [readDt, String.toList_ofList, parseDt_showDt d h]
+
+/-- whatever `DateTime` is read – by the concrete reader or through the oracle – is representable -/
+theorem readDt_valid (P : Codec) (s : String) (d : DateTime) (h : readDt P s = some d) : d.Valid := by
+  unfold readDt at h
+  split at h
+  · rename_i d' hd
+    cases h
+    exact (parseDt_valid _ _ hd).1
+  · simp only [Option.bind_eq_some_iff] at h
+    obtain ⟨c, _, hc⟩ := h
+    exact (parseDt_valid _ _ hc).1
+
+theorem request_roundtrip (P : Codec) (q : Request) (h : q.WF) :
+    deRequest P (serRequest q) = some q := by
+  have h1 := pathAndQuery_roundtrip q.path_and_query_skipped
+  have h2 : deVec deHeader (serVec serHeader q.headers) = some q.headers :=
+    deVec_serVec _ _ _ (fun x _ => header_roundtrip x)
+  have h3 : deOption (deAtom (readIp P)) (serOption (fun x => .str (String.ofList (showIp x))) q.remote_addr)
+      = some q.remote_addr :=
+    deOption_serOption _ _ (by intro a h; cases h) _ (fun ip _ => by simp [deAtom, readIp_show])
+  have h4 : deOption (deAtom (readDt P)) (serOption (fun d => .str (String.ofList (showDt d))) q.created_at)
+      = some q.created_at :=
+    deOption_serOption _ _ (by intro a h; cases h) _
+      (fun dt hdt => by simp [deAtom, readDt_show P dt (h dt hdt)])
+  simp [deRequest, serRequest, reqField, optField, find, keyEq, h1, h2, h3, h4]
+
+/-- every request obtained by deserialisation is well-formed, whatever the oracle answers -/
+theorem deRequest_wf (P : Codec) (j : Json) (q : Request) (h : deRequest P j = some q) : q.WF := by
+  have atomOpt : ∀ (v : Json) (o : Option DateTime), deOption (deAtom (readDt P)) v = some o →
+      ∀ d, o = some d → d.Valid := by
+    intro v o hv d hd
+    subst hd
+    cases v with
+    | str s =>
+      simp only [deOption, deAtom, Option.map_eq_some_iff] at hv
+      obtain ⟨d', hd', hdd⟩ := hv
+      cases hdd
+      exact readDt_valid P s d hd'
+    | null => simp [deOption] at hv
+    | _ => simp [deOption, deAtom] at hv
+  have atomField : ∀ (kvs : List (String × Json)) (k : String) (o : Option DateTime),
+      optField (deAtom (readDt P)) kvs k = some o → ∀ d, o = some d → d.Valid := by
+    intro kvs k o hv d hd
+    unfold optField at hv
+    split at hv
+    · simp only [Option.some.injEq] at hv; subst hv; cases hd
+    · exact atomOpt _ o hv d hd
+    · exact absurd hv (by simp)
+  unfold deRequest at h
+  split at h
+  · simp only [Option.bind_eq_bind, Option.bind_eq_some_iff, Option.pure_def, Option.some.injEq] at h
+    obtain ⟨_, _, _, _, _, _, _, _, _, _, _, _, ra, hra, ca, hca, _, _, rfl⟩ := h
+    exact atomField _ _ ca hca
+  · simp only [Option.bind_eq_bind, Option.bind_eq_some_iff, Option.pure_def, Option.some.injEq] at h
+    obtain ⟨_, _, _, _, _, _, _, _, _, _, _, _, ra, hra, ca, hca, _, _, rfl⟩ := h
+    exact atomOpt _ ca hca
+  · exact absurd h (by simp)
 
 end Rio.Json
